@@ -33,6 +33,12 @@ def slot_offset_from_end(fmt: str, i: int):
     return size - pre, chars[i]
 
 
+def _is_resolving(n) -> bool:
+    """a call that makes a path absolute AND follows symbolic links: Path.resolve() or os.path.realpath() (os.path.abspath only
+    normalises the text: `link/../f` then names another file than the one the operating system opens)"""
+    return n[0] == "call" and ((n[1][0] == "m" and n[1][2] == "resolve") or n[1] in (("ext", "os", "path", "realpath"), ("ext", "os.path", "realpath")))
+
+
 def io_events(p):
     out = []
     for e in p.events:
@@ -217,7 +223,12 @@ def check(prog, rep, tier):
                 if k == "map.store":
                     v = canon(e.value)
                     rd = canon(("sub", ("f", SELF, "_bloom", 0), strip_epochs(e.index), 0))
-                    if not ((v[0] == "nary" and v[1] == "|" and rd in v[2]) or (f.src_name == "clear" and e.value == C(0))):
+                    zero_cells = False
+                    if f.src_name == "clear" and strip_epochs(e.index)[0] == "slc":
+                        from .C19 import _zero_block
+                        z_, full_ = _zero_block(prog, CTX, "_bloom", strip_epochs(e.index), strip_epochs(e.value))
+                        zero_cells = z_ and full_  # a block of zeros over exactly the cells (the footer behind them is not touched)
+                    if not ((v[0] == "nary" and v[1] == "|" and rd in v[2]) or (f.src_name == "clear" and e.value == C(0)) or zero_cells):
                         bad = (f, e, f"stores {nshow(e.value)} into the mapping (not an OR of the old byte)")
                     continue
                 op = k.split(".")[1]
@@ -247,7 +258,7 @@ def check(prog, rep, tier):
         for p in paths(prog, CTX, f):
             for e in p.events:
                 if e.kind == "setfield" and e.base == SELF:
-                    isres = any(n[0] == "call" and n[1][0] == "m" and n[1][2] == "resolve" for n in walk(e.value)) and \
+                    isres = any(_is_resolving(n) for n in walk(e.value)) and \
                         not any(n[0] == "f" and n[2] in LOSSY for n in walk(e.value))
                     assigns.setdefault(e.name, []).append(isres)
     resolved_fields = {k for k, v in assigns.items() if v and all(v)}
@@ -267,7 +278,7 @@ def check(prog, rep, tier):
                     sites += 1
                     lossy = [n for n in walk(a) if n[0] == "f" and n[2] in LOSSY]
                     basename = [n for n in walk(a) if n[0] == "call" and n[1][-1] in ("basename",)]
-                    resolved = any(n[0] == "call" and n[1][0] == "m" and n[1][2] == "resolve" for n in walk(a)) or \
+                    resolved = any(_is_resolving(n) for n in walk(a)) or \
                         (strip_epochs(a)[0] == "f" and strip_epochs(a)[1] == SELF and strip_epochs(a)[2] in resolved_fields)
                     wrapped = [n for n in walk(a) if n[0] == "ret" and "@" in n[1]]
                     if wrapped:
@@ -287,7 +298,7 @@ def check(prog, rep, tier):
                             c = strip_epochs(c)
                             if c[0] == "cmp" and c[1] == "!=" and fpth in (c[2], c[3]):
                                 other = c[3] if c[2] == fpth else c[2]
-                                if any((n[0] == "call" and n[1][0] == "m" and n[1][2] == "resolve") or (n[0] == "ret" and n[1].endswith("resolve_path")) for n in walk(other)):
+                                if any((_is_resolving(n)) or (n[0] == "ret" and n[1].endswith("resolve_path")) for n in walk(other)):
                                     guarded = True
                         if guarded:
                             rep.ok("C11.path-provenance", f"{CTX}.{fname}: destination opened for writing under a resolved own-file guard")
@@ -329,7 +340,7 @@ def check(prog, rep, tier):
                     c = strip_epochs(c)
                     if c[0] == "cmp" and c[1] == "!=" and fpth in (c[2], c[3]):
                         other = c[3] if c[2] == fpth else c[2]
-                        if any((n[0] == "call" and n[1][0] == "m" and n[1][2] == "resolve") or (n[0] == "ret" and n[1].endswith("resolve_path")) for n in walk(other)):
+                        if any((_is_resolving(n)) or (n[0] == "ret" and n[1].endswith("resolve_path")) for n in walk(other)):
                             guarded = True
                 if not guarded:
                     badmv = (f, e, hit)
